@@ -100,11 +100,23 @@
 //@}
 //@start{
     let ghost s0 = state_id;
+    let ghost mut fmoves: nat = 0;   // C13: fail moves made so far by this call
 //@}
 //@loop 1{
     invariant bw_wf(self.states@, false), bw_live(self.states@, false, state_id as int),
-              bw_delta(self.states@, state_id as int, c) == bw_delta(self.states@, s0 as int, c)
+              bw_delta(self.states@, state_id as int, c) == bw_delta(self.states@, s0 as int, c),
+              fmoves + bw_fsteps(self.states@, state_id as int, c) == bw_fsteps(self.states@, s0 as int, c),
     decreases bw_rank(self.states@, false, state_id as int)
+//@}
+//@before 1 return state_id;{
+    // the loop made exactly bw_fsteps fail moves (lemma_moves_from_root: at most 2n transitions over n bytes)
+    proof { assert(fmoves == bw_fsteps(self.states@, s0 as int, c)); }
+//@}
+//@before 1 return ROOT_STATE_IDX;{
+    proof { assert(fmoves == bw_fsteps(self.states@, s0 as int, c)); }
+//@}
+//@before 1 state_id = (&self.states{
+    proof { fmoves = fmoves + 1; }
 //@}
 //@fn next_state_id_leftmost_unchecked
 //@pre{
